@@ -61,10 +61,17 @@ def regen_protofacts():
                 return "protofacts does not build: " + r.stderr[-400:]
         r = check.run([out, check.REPO, os.path.dirname(PROTO_LEAN)])
         if r.returncode != 0:
-            # the model must not be checked against stale facts
-            if os.path.exists(PROTO_LEAN):
+            # the model must not be CHECKED against stale facts: the check is broken from here on (check.py reads
+            # FACTS_ERROR: no obligation counts as discharged, the verdict is a violation). What remains to be done is the
+            # SEARCH for a concrete failing input; for that alone the facts of the pinned tree
+            # (tools/protofacts/reference/Proto.lean, committed) stand in, and the replay says so.
+            ref = os.path.join(src, "reference", "Proto.lean")
+            if os.path.exists(ref):
+                shutil.copyfile(ref, PROTO_LEAN)
+            elif os.path.exists(PROTO_LEAN):
                 os.remove(PROTO_LEAN)
-            return "protofacts cannot translate the current tree: " + r.stderr.strip()[-400:]
+            return ("protofacts cannot translate the current tree (the search for a failing input below ran with the reference facts "
+                    "of the pinned tree): " + r.stderr.strip()[-400:])
     return ""
 
 
@@ -79,8 +86,6 @@ def build_harness():
         out = os.path.join(check.BIN, "harness-kafka")
         r = check.run(["go", "build", "-overlay", ov, "-o", out, "./cmd/harness-kafka"], cwd=hd, env=check.GOENV, timeout=1800)
         err = r.stderr
-        if FACTS_ERROR:
-            return False, FACTS_ERROR, out
         return r.returncode == 0, err, out
 
 
@@ -169,6 +174,9 @@ def rand_ip6(rng):
         return b"".join(x.to_bytes(2, "big") for x in g)
     if r < 0.8:
         return b"\0" * 10 + b"\xff\xff" + G.rand_bytes(rng, 4)
+    if r < 0.83:
+        # the 32 bits of an IPv4 address the streams also use, as an IPv6 prefix: another address
+        return rng.choice([b"\0\0\0\0", b"\xff\xff\xff\xff", b"\x7f\0\0\1", b"\x0a\x00\x00\x09", b"\x64\x63\x0a\x01"]) + b"\0" * 12
     if r < 0.85:
         return G.rand_bytes(rng, 4)        # a 4-byte net.IP in an ipv6Address element
     return G.rand_bytes(rng, 16)
